@@ -73,6 +73,8 @@ def worker_finish(tier, rec, st):
     common.finish_monitors(rec, st)
     rec.count("distinct_schedules", len(st["schedules"]))
     rec.count("yield_points", _Y["n"])
+    rec.count("early_calls_that_failed_as_expected", _EARLY["failed"])
+    rec.count("families_with_early_calls", _EARLY["cases"])
     rec.extra.setdefault("exec_events_by_thread_max", []).append(max(common.GEN.by_thread.values()) if common.GEN.by_thread else 0)
 
 
@@ -92,6 +94,9 @@ def features(rng):
         # a nested PLAIN dataclass shared by two holders (its methods are compiled by whichever holder comes first - or
         # by both at once, from two threads)
         "plain_shared": rng.random() < 0.4,
+        # (postponed mode) calls made while some referenced classes are still undefined: they fail with
+        # UnresolvedTypeReferenceError and must leave nothing behind
+        "early_calls": rng.random() < 0.5,
         # codec objects with a default dialect used between the classes' own calls
         "codec_ops": rng.random() < 0.3,
         # class-level orjson options, different per class: honoured whichever class is compiled first
@@ -201,10 +206,39 @@ def build(ft, mode):
             pass
         for n in seq:
             fam.exec_src(out[n])
+            if n == "Node" and ft.get("early_calls"):
+                early_calls(fam, ft)
     else:
         for n in order:
             fam.exec_src(out[n])
     return fam
+
+
+def early_calls(fam, ft):
+    """Holder and Node exist, Inner (and others) do not yet: every kind of first call is attempted and expected to fail."""
+    m = fam.module
+    calls = [lambda: m.Holder.from_dict({}), lambda: m.Holder().to_dict(), lambda: m.Node.from_dict({"v": 1}), lambda: m.Node().to_dict()]
+    if ft["dialect"] in ("all", "outer-only"):
+        calls += [lambda: m.Holder.from_dict({}, dialect=m.D1), lambda: m.Holder().to_dict(dialect=m.D1)]
+    if ft["dialect"] == "all":
+        calls += [lambda: m.Node.from_dict({"v": 1}, dialect=m.D1), lambda: m.Node().to_dict(dialect=m.D1)]
+    if "msgpack" in ft["mixin"]:
+        calls.append(lambda: m.Holder().to_msgpack())
+    if "orjson" in ft["mixin"]:
+        calls.append(lambda: m.Holder().to_jsonb())
+    r = random.Random(repr(sorted(map(str, ft.items()))))
+    r.shuffle(calls)
+    n = 0
+    for c in calls[:r.randint(1, len(calls))]:
+        try:
+            c()
+        except Exception:
+            n += 1
+    _EARLY["failed"] += n
+    _EARLY["cases"] += 1
+
+
+_EARLY = {"failed": 0, "cases": 0}
 
 
 def make_values(mod, ft):
@@ -269,6 +303,8 @@ def op_list(ft):
                 ops.append((c, "codec-encode", "codec-decode", "from", False, cd or "plain"))
         if "orjson" in ft["mixin"] and ft.get("orjson_cfg", {}).get("Node" if c == "Child" else c):
             ops.append((c, "to_jsonb", "from_json", "to", False, "config-options-honoured"))
+            if has_d:
+                ops.append((c, "to_jsonb", "from_json", "to", True, "config-options-honoured"))
     return ops
 
 
@@ -283,8 +319,8 @@ def run_op(mod, vals, op):
         # ABSOLUTE oracle (the twin lives in the same process): the document is what orjson makes of the pre-dump tree
         # under the options this class declares
         import orjson
-        tree = v.to_jsonb(encoder=lambda x, **k: x)
-        return v.to_jsonb() == orjson.dumps(tree, option=eval(_FT["orjson_cfg"]["Node" if c == "Child" else c], {"orjson": orjson}))
+        tree = v.to_jsonb(encoder=lambda x, **k: x, **kw)
+        return v.to_jsonb(**kw) == orjson.dumps(tree, option=eval(_FT["orjson_cfg"]["Node" if c == "Child" else c], {"orjson": orjson}))
     if to_m == "codec-encode":
         from mashumaro.codecs.basic import BasicDecoder, BasicEncoder
         cls = getattr(mod, c)
